@@ -132,7 +132,7 @@ func (c *Ctx) RunSharded(cases []json.RawMessage, o ShardOpts) error {
 		go func(si int) {
 			defer wg.Done()
 			pending := shards[si].idx
-			round := 0
+			round, crashFindings := 0, 0
 			for len(pending) > 0 {
 				round++
 				in := filepath.Join(dir, fmt.Sprintf("s%d-%d.in", si, round))
@@ -209,12 +209,19 @@ func (c *Ctx) RunSharded(cases []json.RawMessage, o ShardOpts) error {
 					c.CountEval(1)
 					if fd.Class != "" {
 						c.Report(cases[culprit], []Finding{fd})
+						crashFindings++
 					}
 				} else {
 					c.InfraError("worker %s %s on case %s: %s", o.Worker, how, cases[culprit], se)
 				}
 				pending = pending[done+1:]
 				if round > 200 {
+					if crashFindings > 100 {
+						// more than a hundred dead workers have been reported as findings already: the verdict is a
+						// violation; the rest of this shard is not run (every further crash costs a process start)
+						c.Inconclusive(fmt.Sprintf("not-run-after-%d-crashes-in-one-shard", round))
+						return
+					}
 					c.InfraError("worker %s: too many crashes in one shard", o.Worker)
 					return
 				}
